@@ -51,6 +51,15 @@ SPECS = [
          ],
          raises={'*': {'ensures': ["raised('e1') or raised('e2')"]}},
          serves=['C06', 'C02', 'C04']),
+    dict(id='S-Interp-lines',
+         # line/column in the token table count '\n' only (as the tokenizer, Token.location and the
+         # error formatter's source excerpt do): no other "line boundary" character starts a line
+         text='A\x0cx\u2028y\x85z\x1c\n <p>\x0b${e1}</p>\n\u2029${e2}B',
+         ensures=[
+             "trace('e1', 'e2')",
+         ],
+         raises={'*': {'ensures': ["raised('e1') or raised('e2')"]}},
+         serves=['C12']),
     dict(id='S-LambdaScope', text='A${(lambda e1: 0)(1)}B${e1}C<i tal:content="e1 | e2"/>',
          ensures=[
              # a lambda parameter is local to the lambda: later expressions still read the
